@@ -87,8 +87,11 @@ def cases(tier, rng):
         ops += [rand_transform(rng) for _ in range(rng.randint(1, 6))]
         yield Case("bar.run", [rng.choice(["C", "Eb", "f#"]), 0, 0, ops], "bar", kind=("bar",))
         ops = []
-        for _ in range(rng.randint(2, 12)):
-            ops.append(["add", rand_content(rng), rng.choice(VALUES)])
+        for j in range(rng.randint(2, 12)):
+            if j > 0 and rng.random() < 0.25:
+                ops.append(["add_copy", rng.randrange(j), rng.choice(VALUES)])      # a chord copy-constructed from an earlier one
+            else:
+                ops.append(["add", rand_content(rng), rng.choice(VALUES)])
         ops += [rand_transform(rng) for _ in range(rng.randint(1, 6))]
         yield Case("track.run", ["none", ops], "track", kind=("track",))
 
